@@ -1,6 +1,7 @@
 import PytaskProofs.AuditTool
 import PytaskProofs.Properties.C01
 import PytaskProofs.Properties.C12
+import PytaskProofs.Properties.C10
 import PytaskProofs.Properties.C19
 import PytaskProofs.Properties.C07
 import PytaskProofs.Properties.C18
